@@ -641,7 +641,7 @@ static std::string whereOf(const std::string& err, size_t from) {
         size_t e = err.find('\n', p + 1); std::string l = err.substr(p + 1, e == std::string::npos ? e : e - p - 1); p += 1;
         size_t in = l.find(" in "); if (in == std::string::npos) continue;
         std::string fn = l.substr(in + 4);
-        bool geosFrame = fn.find("geos::") != std::string::npos || fn.rfind("GEOS", 0) == 0 || fn.find("/repo/") != std::string::npos;
+        bool geosFrame = fn.find("geos::") != std::string::npos || fn.find("geos_nlohmann::") != std::string::npos || fn.rfind("GEOS", 0) == 0;   // by name, never by path
         if (!geosFrame) continue;
         if (fn.rfind("operator()", 0) == 0 || fn.rfind("execute<", 0) == 0 || fn.rfind("std::", 0) == 0 || fn.rfind("__", 0) == 0 || fn.rfind("_M_", 0) == 0) continue;
         if (fn.find("vh::") != std::string::npos || fn.find("/verif/harness") != std::string::npos) return "harness";
@@ -651,6 +651,7 @@ static std::string whereOf(const std::string& err, size_t from) {
         size_t par = o.find('('); if (par != std::string::npos) o = o.substr(0, par);
         while (!o.empty() && o.back() == ' ') o.pop_back();
         size_t sp = o.rfind(' '); if (sp != std::string::npos) o = o.substr(sp + 1);
+        size_t abi = o.find("[abi:"); if (abi != std::string::npos) o = o.substr(0, abi);
         // trivial accessors say nothing about the cause: name their caller instead
         static const char* ACC[] = { "geos::geom::CoordinateSequence::getAt", "geos::geom::CoordinateSequence::front", "geos::geom::CoordinateSequence::back",
             "geos::geom::CoordinateSequence::getX", "geos::geom::CoordinateSequence::getY", "geos::geom::CoordinateSequence::getOrdinate", "geos::geom::SimpleCurve::getCoordinateN",
@@ -681,6 +682,14 @@ static std::string classifyStderr(const std::string& err) {
     return "";
 }
 
+// CPU seconds (user+system) consumed so far by a process; -1 if unknown.  Time limits are on CPU time so that a loaded
+// machine does not turn slow calls into "hangs"; a wall-clock limit 15x as long catches a child that sleeps forever.
+static double cpuSeconds(pid_t pid) {
+    char path[64]; snprintf(path, sizeof path, "/proc/%d/stat", (int) pid); std::ifstream f(path); std::string st; std::getline(f, st);
+    size_t rp = st.rfind(')'); if (rp == std::string::npos) return -1; std::istringstream is(st.substr(rp + 2)); std::string t; std::vector<std::string> w; while (is >> t) w.push_back(t);
+    if (w.size() < 13) return -1; return (double) (std::stoull(w[11]) + std::stoull(w[12])) / (double) sysconf(_SC_CLK_TCK);
+}
+
 static ChildResult runChild(const std::function<void(Exec&, std::map<std::string, long>&)>& body, double perCallTimeout, std::map<std::string, long>& stat) {
     ChildResult res; int pfd[2]; if (pipe(pfd) != 0) { perror("pipe"); exit(3); }
     char errPath[64]; snprintf(errPath, sizeof errPath, "/tmp/c12-err-%d-XXXXXX", (int) getpid()); int efd = mkstemp(errPath);
@@ -703,22 +712,25 @@ static ChildResult runChild(const std::function<void(Exec&, std::map<std::string
     std::string buf, pendingB, pendingFlag; long pendingNo = -1; std::vector<std::string> done; bool gotZ = false, hang = false;
     struct timeval t0; gettimeofday(&t0, nullptr); double last = 0;
     auto now = [&]() { struct timeval t; gettimeofday(&t, nullptr); return (double) (t.tv_sec - t0.tv_sec) + 1e-6 * (double) (t.tv_usec - t0.tv_usec); };
-    last = now();
+    last = now(); double lastCpu = 0;
     while (true) {
         struct pollfd pf; pf.fd = pfd[0]; pf.events = POLLIN; int pr = poll(&pf, 1, 200);
-        if (pr > 0) { char tmp[65536]; ssize_t k = read(pfd[0], tmp, sizeof tmp); if (k <= 0) break; buf.append(tmp, (size_t) k); last = now();
+        if (pr > 0) { char tmp[65536]; ssize_t k = read(pfd[0], tmp, sizeof tmp); if (k <= 0) break; buf.append(tmp, (size_t) k); last = now(); { double c = cpuSeconds(pid); if (c >= 0) lastCpu = c; }
             size_t p; while ((p = buf.find('\n')) != std::string::npos) { std::string l = buf.substr(0, p); buf.erase(0, p + 1);
                 if (l[0] == 'B') { auto w = words(l); pendingNo = std::stol(w[1]); pendingFlag = w[2].substr(1); size_t off = l.find(w[2], 2 + w[1].size()) + w[2].size() + 1; pendingB = l.substr(off); }
                 else if (l[0] == 'A') { done.push_back(pendingB + " => " + l.substr(2)); pendingB.clear(); }
                 else if (l[0] == 'S') { auto w = words(l); if (w.size() == 3) stat[w[1]] += std::stol(w[2]); }
                 else if (l[0] == 'Z') gotZ = true; } }
-        else if (now() - last > perCallTimeout) { hang = true; kill(pid, SIGKILL); break; }
+        else { double c = cpuSeconds(pid);
+            if ((c >= 0 && c - lastCpu > perCallTimeout) || now() - last > 15 * perCallTimeout) { hang = true; kill(pid, SIGKILL); break; } }
     }
     close(pfd[0]);
     int status = 0;
     // the exit handlers (LeakSanitizer) get their own allowance
     double tw = now();
-    while (true) { pid_t w = waitpid(pid, &status, WNOHANG); if (w == pid) break; if (now() - tw > 60) { kill(pid, SIGKILL); waitpid(pid, &status, 0); hang = true; break; } usleep(2000); }
+    double cw = cpuSeconds(pid);
+    while (true) { pid_t w = waitpid(pid, &status, WNOHANG); if (w == pid) break; double c = cpuSeconds(pid);
+        if ((c >= 0 && cw >= 0 && c - cw > 60) || now() - tw > 900) { kill(pid, SIGKILL); waitpid(pid, &status, 0); hang = true; break; } usleep(2000); }
     std::string err; { std::ifstream f(errPath); std::stringstream ss; ss << f.rdbuf(); err = ss.str(); } unlink(errPath);
     std::string cls = classifyStderr(err), endc = "ok", callFail;
     bool exitedOk = WIFEXITED(status) && WEXITSTATUS(status) == 0;
